@@ -38,6 +38,45 @@ static int s_attacked(const SBoard *s, int sq, int by) {
   }
   return 0;
 }
+/* ---- second, bit-parallel formulation of "is sq attacked by colour `by`" (super-piece method on bitboards derived
+   from the mailbox).  Independent of the engine; equivalent to s_attacked (proved by the lemma query of C07). */
+#define SB_NOT_A 0xfefefefefefefefeULL
+#define SB_NOT_H 0x7f7f7f7f7f7f7f7fULL
+static uint64_t sb_fill(uint64_t g, uint64_t empty, int sh, uint64_t wrap) {
+  uint64_t a = 0;
+  for (int i = 0; i < 7; i++) { g = (sh > 0 ? (g << sh) : (g >> -sh)) & wrap; a |= g; g &= empty; }
+  return a;
+}
+static int s_attacked_bb(const SBoard *s, int sq, int by) {
+  uint64_t occ = 0, P = 0, N = 0, B = 0, R = 0, Q = 0, K = 0;
+  int base = by ? 6 : 0;
+  for (int i = 0; i < 64; i++) {
+    uint8_t p = s->b[i]; uint64_t bit = 1ULL << i;
+    if (p) occ |= bit;
+    if (p == base + 1) P |= bit; if (p == base + 2) N |= bit; if (p == base + 3) B |= bit;
+    if (p == base + 4) R |= bit; if (p == base + 5) Q |= bit; if (p == base + 6) K |= bit;
+  }
+  uint64_t t = 1ULL << (sq & 63), e = ~occ;
+  /* pawns of colour `by` attacking t: a white pawn attacks upwards, so it sits one rank below t */
+  uint64_t pa = by == 0 ? (((t >> 7) & SB_NOT_A) | ((t >> 9) & SB_NOT_H)) : (((t << 7) & SB_NOT_H) | ((t << 9) & SB_NOT_A));
+  if (pa & P) return 1;
+  uint64_t l1 = (t >> 1) & SB_NOT_H, l2 = (t >> 2) & 0x3f3f3f3f3f3f3f3fULL, r1 = (t << 1) & SB_NOT_A, r2 = (t << 2) & 0xfcfcfcfcfcfcfcfcULL;
+  uint64_t h1 = l1 | r1, h2 = l2 | r2;
+  uint64_t kn = (h1 << 16) | (h1 >> 16) | (h2 << 8) | (h2 >> 8);
+  if (kn & N) return 1;
+  uint64_t row = t | l1 | r1; uint64_t ka = (row | (row << 8) | (row >> 8)) & ~t;
+  if (ka & K) return 1;
+  uint64_t diag = sb_fill(t, e, 9, SB_NOT_A) | sb_fill(t, e, 7, SB_NOT_H) | sb_fill(t, e, -7, SB_NOT_A) | sb_fill(t, e, -9, SB_NOT_H);
+  if (diag & (B | Q)) return 1;
+  uint64_t orth = sb_fill(t, e, 8, ~0ULL) | sb_fill(t, e, -8, ~0ULL) | sb_fill(t, e, 1, SB_NOT_A) | sb_fill(t, e, -1, SB_NOT_H);
+  if (orth & (R | Q)) return 1;
+  return 0;
+}
+#ifdef S_USE_BITBOARD_ORACLE
+#define S_ATTACKED s_attacked_bb
+#else
+#define S_ATTACKED s_attacked
+#endif
 static int s_king_sq(const SBoard *s, int color) {
   int k = 64;
   for (int i = 0; i < 64; i++) if (s->b[i] == (color ? 12 : 6)) k = i;
@@ -90,8 +129,8 @@ static int s_pseudo_legal(const SBoard *s, SMove m) {
     if (s->b[r + 4] != (us ? 12 : 6)) return 0;
     if (m.castle == 1) { if (s->b[r + 7] != (us ? 10 : 4) || s->b[r + 5] || s->b[r + 6]) return 0; }
     else               { if (s->b[r + 0] != (us ? 10 : 4) || s->b[r + 1] || s->b[r + 2] || s->b[r + 3]) return 0; }
-    if (s_attacked(s, r + 4, 1 - us)) return 0;
-    if (s_attacked(s, m.castle == 1 ? r + 5 : r + 3, 1 - us)) return 0;
+    if (S_ATTACKED(s, r + 4, 1 - us)) return 0;
+    if (S_ATTACKED(s, m.castle == 1 ? r + 5 : r + 3, 1 - us)) return 0;
     /* destination square is covered by the generic own-king-safe test in s_legal */
     return 1;
   }
@@ -125,6 +164,6 @@ static int s_pseudo_legal(const SBoard *s, SMove m) {
 static int s_legal(const SBoard *s, SMove m) {
   if (!s_pseudo_legal(s, m)) return 0;
   SBoard o; s_apply(s, m, &o);
-  return !s_attacked(&o, s_king_sq(&o, s->side), 1 - s->side);
+  return !S_ATTACKED(&o, s_king_sq(&o, s->side), 1 - s->side);
 }
 #endif
